@@ -482,6 +482,154 @@ impl Chain {
     }
 }
 
+/// A transaction the wallet itself created (not yet in any block), in the harness chain's terms.
+#[derive(Clone)]
+pub struct Created {
+    pub abs: AbsTx,
+    pub ctx: CompactTx,
+    /// expiry height as in the transaction (0: never)
+    pub expiry: u32,
+    /// the chain the transaction was built on: anchor height and the block hash there
+    pub anchor: (u32, [u8; 32]),
+    /// inputs with a nullifier the harness knows that do not occur in the transaction / nullifiers of other known notes that do
+    pub nf_missing: u32,
+    pub nf_extra: u32,
+}
+
+impl Chain {
+    /// Takes a transaction built by the wallet into the harness chain's books (without mining it): trial-decrypts every
+    /// shielded output with the keys of the wallet's accounts (both scopes) and of the foreign party, gives the wallet's
+    /// outputs note ids, and cross-checks the revealed nullifiers against the proposal's inputs.
+    pub fn register_created(&mut self, tx: &zcash_primitives::transaction::Transaction, inputs: &[u32], anchor_height: u32) -> Created {
+        use sapling::note_encryption::{PreparedIncomingViewingKey as SapIvk, Zip212Enforcement, try_sapling_note_decryption};
+        use zcash_note_encryption::try_note_decryption;
+        use zip32::Scope;
+        let txid: [u8; 32] = *tx.txid().as_ref();
+        let uid = self.next_tx;
+        self.next_tx += 1;
+        self.tx_by_id.insert(txid, uid);
+        let mut ctx = CompactTx { txid: txid.to_vec(), ..Default::default() };
+        let mut abs = AbsTx { uid, txid, outs: vec![], spends: inputs.to_vec() };
+        let mut revealed: Vec<Nf> = vec![];
+        // (account number, internal scope, keys); account 0 is the foreign party
+        let mut parties: Vec<(u32, bool, Keys)> = vec![];
+        for (i, k) in self.accounts.iter().enumerate() {
+            parties.push((i as u32 + 1, false, k.clone()));
+            parties.push((i as u32 + 1, true, k.clone()));
+        }
+        parties.push((0, false, self.foreign.clone()));
+        parties.push((0, true, self.foreign.clone()));
+        let scope = |internal: bool| if internal { Scope::Internal } else { Scope::External };
+        if let Some(b) = tx.sapling_bundle() {
+            for sp in b.shielded_spends() {
+                ctx.spends.push(sp.into());
+                revealed.push(Nf::Sapling(*sp.nullifier()));
+            }
+            for (index, out) in b.shielded_outputs().iter().enumerate() {
+                ctx.outputs.push(out.into());
+                for (acct, internal, k) in &parties {
+                    let ivk = SapIvk::new(&k.sapling.to_ivk(scope(*internal)));
+                    if let Some((note, _, _)) = try_sapling_note_decryption(&ivk, out, Zip212Enforcement::GracePeriod) {
+                        let value = note.value().inner();
+                        let id = if *acct == 0 { 0 } else {
+                            let id = self.next_note;
+                            self.next_note += 1;
+                            // the nullifier depends on the position, unknown until the transaction is mined
+                            self.notes.insert(id, NoteInfo { cm: out.cmu().to_bytes(), pos: 0, pool: Pool::Sapling, value, acct: *acct, nf: Nf::Unknown, tx: uid, index: index as u32 });
+                            id
+                        };
+                        abs.outs.push(AbsOut { note: id, pool: Pool::Sapling, value, acct: *acct, internal: *internal, index: index as u32 });
+                        break;
+                    }
+                }
+            }
+        }
+        let mut orchard_like = |this: &mut Chain, abs: &mut AbsTx, pool: Pool, actions: Vec<&orchard::Action<orchard::primitives::redpallas::Signature<orchard::primitives::redpallas::SpendAuth>>>, compact: &mut Vec<zcash_client_backend::proto::compact_formats::CompactOrchardAction>, revealed: &mut Vec<Nf>| {
+            for (index, a) in actions.iter().enumerate() {
+                compact.push((*a).into());
+                revealed.push(Nf::Orchard(*a.nullifier()));
+                for (acct, internal, k) in &parties {
+                    let ivk = orchard::keys::PreparedIncomingViewingKey::new(&k.orchard.to_ivk(scope(*internal)));
+                    let dec = if pool == Pool::Ironwood {
+                        try_note_decryption(&orchard::note_encryption::IronwoodDomain::for_action(*a), &ivk, *a)
+                    } else {
+                        try_note_decryption(&orchard::note_encryption::OrchardDomain::for_action(*a), &ivk, *a)
+                    };
+                    if let Some((note, _, _)) = dec {
+                        let value = note.value().inner();
+                        // zero-valued dummy outputs to the sender's own internal address are padding, not notes the wallet keeps
+                        let id = if *acct == 0 { 0 } else {
+                            let id = this.next_note;
+                            this.next_note += 1;
+                            this.notes.insert(id, NoteInfo { cm: a.cmx().to_bytes(), pos: 0, pool, value, acct: *acct, nf: Nf::Orchard(note.nullifier(&k.orchard)), tx: uid, index: index as u32 });
+                            id
+                        };
+                        abs.outs.push(AbsOut { note: id, pool, value, acct: *acct, internal: *internal, index: index as u32 });
+                        break;
+                    }
+                }
+            }
+        };
+        if let Some(b) = tx.orchard_bundle() {
+            let acts: Vec<_> = b.actions().iter().collect();
+            let mut compact = vec![];
+            orchard_like(self, &mut abs, Pool::Orchard, acts, &mut compact, &mut revealed);
+            ctx.actions = compact;
+        }
+        if let Some(b) = tx.ironwood_bundle() {
+            let acts: Vec<_> = b.actions().iter().collect();
+            let mut compact = vec![];
+            orchard_like(self, &mut abs, Pool::Ironwood, acts, &mut compact, &mut revealed);
+            ctx.ironwood_actions = compact;
+        }
+        let same = |a: &Nf, b: &Nf| match (a, b) {
+            (Nf::Sapling(x), Nf::Sapling(y)) => x == y,
+            (Nf::Orchard(x), Nf::Orchard(y)) => x == y,
+            _ => false,
+        };
+        let mut nf_missing = 0;
+        for n in inputs {
+            let nf = self.notes[n].nf;
+            if !matches!(nf, Nf::Unknown) && !revealed.iter().any(|r| same(r, &nf)) {
+                nf_missing += 1;
+            }
+        }
+        let nf_extra = self.notes.iter().filter(|(id, ni)| !inputs.contains(id) && revealed.iter().any(|r| same(r, &ni.nf))).count() as u32;
+        Created { abs, ctx, expiry: u32::from(tx.expiry_height()), anchor: (anchor_height, self.hash_at(anchor_height)), nf_missing, nf_extra }
+    }
+
+    /// Notes created on the current chain that no block of the current chain spends (whether or not the harness knows
+    /// their nullifier).
+    pub fn unspent_on_chain(&self) -> std::collections::BTreeSet<u32> {
+        let mut on_chain = std::collections::BTreeSet::new();
+        let mut spent = std::collections::BTreeSet::new();
+        for b in self.blocks.values() {
+            for t in &b.txs {
+                for o in &t.outs {
+                    if o.note > 0 {
+                        on_chain.insert(o.note);
+                    }
+                }
+                for s in &t.spends {
+                    spent.insert(*s);
+                }
+            }
+        }
+        on_chain.difference(&spent).copied().collect()
+    }
+
+    /// Could the created transaction be mined in the next block of the current chain?  Its inputs exist and are unspent
+    /// there, its anchor block is still on the chain, and it has not expired.
+    pub fn mineable(&self, c: &Created) -> bool {
+        let next = self.top() + 1;
+        let unspent = self.unspent_on_chain();
+        c.abs.spends.iter().all(|n| unspent.contains(n))
+            && self.hash_at(c.anchor.0) == c.anchor.1
+            && c.anchor.0 <= self.top()
+            && (c.expiry == 0 || next <= c.expiry)
+    }
+}
+
 pub struct Source<'a>(pub &'a Chain);
 
 impl BlockSource for Source<'_> {
